@@ -146,5 +146,37 @@ range_harness!(c40_t_range_192, 192);
 #[cfg(feature = "thorough")]
 range_harness!(c40_t_range_254, 254);
 
+/// Keys that agree in three of their four 64-bit words (concrete, equal) and differ only in
+/// word I (symbolic): the edge case "shared aligned words", cheap because most of the data is
+/// concrete.  Same laws as above.
+fn one_differing_limb<const I: usize>() {
+    let base: L = [0x0123_4567_89ab_cdef, 0xfedc_ba98_7654_3210, 0x0f0f_0f0f_f0f0_f0f0, 0x8000_0000_0000_0001];
+    let (mut a, mut b) = (base, base);
+    a[I] = kani::any();
+    b[I] = kani::any();
+    let (ka, kb) = (key(a), key(b));
+    let d = ka.distance(&kb);
+    assert!(limbs(d) == xor(a, b), "distance is the bitwise XOR of the two keys");
+    assert!(kb.distance(&ka) == d, "symmetry");
+    assert!(ka.for_distance(d) == kb, "for_distance inverts distance");
+    assert!(d.ilog2() == top_bit(xor(a, b)), "bucket index = highest differing bit");
+    kani::cover!(a[I] != b[I], "witness: keys differ in the chosen word");
+}
+macro_rules! odl {
+    ($name:ident, $i:expr) => {
+        #[kani::proof]
+        #[kani::unwind(34)]
+        fn $name() {
+            one_differing_limb::<$i>()
+        }
+    };
+}
+odl!(c40_q_distance_keys_differ_in_word_0, 0);
+odl!(c40_q_distance_keys_differ_in_word_2, 2);
+#[cfg(feature = "thorough")]
+odl!(c40_t_distance_keys_differ_in_word_1, 1);
+#[cfg(feature = "thorough")]
+odl!(c40_t_distance_keys_differ_in_word_3, 3);
+
 #[cfg(verif_replay)]
 include!(env!("VERIF_REPLAY_FILE"));
